@@ -10,6 +10,8 @@ of `Font.save` / `Font(path)` (`DefconModel/ConvSave.lean`).  Helper lemmas are 
 the one defcon uses, compared with Python's `re` on every run.
 -/
 import DefconModel.Lemmas.ConvSave
+import DefconModel.Lemmas.ConvSaveFail
+import DefconModel.Lemmas.Replace
 import DefconModel.Props.C18
 
 namespace DefconModel.Props.C16
@@ -155,6 +157,20 @@ theorem invariants_reachable (find : Finder) :
     (∀ m m' t ip, MemWF m → save find m t ip = some m' → MemWF m' ∧ BoundGlif1 m') :=
   ⟨fun d mp m wf hg h => read_wf d mp m wf hg h, fun m m' t ip wf h => save_wf find m m' t ip wf h⟩
 
+/-- MEMORY UNCHANGED BY A SAVE THAT FAILS AT THE FINAL REPLACE (a conversion in place or a save over an
+existing UFO whose new UFO cannot be moved onto the destination, M-Replace below): the getters return what
+they returned before, the font is bound to the UFO it was bound to and reports the format it reported, and
+the invariants hold on — so the statements of this section apply to whatever save comes next. -/
+theorem failed_save_memory_unchanged (find : Finder) (m m' : Mem) (t : Fmt) (wf : MemWF m) (hb : BoundGlif1 m)
+    (h : saveFailsAtReplace find m t = some m') :
+    observe m' = observe m ∧ m'.bound = m.bound ∧ m'.fmt = m.fmt ∧ m'.maps = m.maps ∧ MemWF m' ∧ BoundGlif1 m' := by
+  cases hc : observe m with
+  | none => unfold saveFailsAtReplace at h; simp [hc] at h
+  | some c =>
+    have := saveFailsAtReplace_some find m m' t c hc h
+    subst this
+    exact ⟨observe_preload_saveAs m c t wf hc, rfl, rfl, rfl, preload_wf m c t true wf hc, hb⟩
+
 /-- What makes that possible: a save below format 3 first reads every layer, image and data file
 that format cannot store (and a save-as reads every layer it writes), so nothing is left that
 would have to come from the old UFO. -/
@@ -224,6 +240,12 @@ example :
     (observe demoMem).map (fun c => (c.layers.length, c.images, c.data)) = some (2, [("i.png", 8)], [("a.txt", 9)]) := by
   decide
 
+/-- on the same font: a failed conversion to format 2 has read both layers, the image and the data
+file, and the font shows what it showed -/
+example : (saveFailsAtReplace featureHeader demoMem .f2).bind observe = observe demoMem ∧
+    ((saveFailsAtReplace featureHeader demoMem .f2).map (fun m => (m.images, m.data, m.bound == demoMem.bound))) =
+      some ([("i.png", some 8)], [("a.txt", some 9)], true) := by decide
+
 /-! ## 5. The destination until the save is done (shared with C18) -/
 
 /-- A conversion in place, and any save over an existing UFO, is written into a temporary UFO and
@@ -242,5 +264,124 @@ theorem destination_intact_on_any_failure (w : SaveSteps.World) (p k q : Nat) (h
   DefconModel.Props.C18.destination_untouched w p k q ha hk
 
 example : 2 + 3 ≤ (SaveSteps.plan DefconModel.Props.C18.w20.font (.saveAsOver 1)).length := by decide
+
+open DefconModel.SaveSteps in
+/-- The same for a TORN final move (`failTorn`): everything was written, the destination was put aside, and
+the move of the temporary UFO fails after an arbitrary part of it has arrived at the destination.  Every
+UFO on disk reads as before — the one at the destination too: what arrived is removed and what was put
+aside is put back.  (An existing destination is what makes `Font.save` take this route at all.) -/
+theorem destination_intact_after_torn_move (w : SaveSteps.World) (p q : Nat) (part : SaveSteps.Ufo)
+    (hex : (SaveSteps.lookup w.disk p).isSome = true) :
+    SaveSteps.lookup (SaveSteps.failTorn p w part).disk q = SaveSteps.lookup w.disk q := by
+  obtain ⟨pre, hplan, h1, h2⟩ := DefconModel.Props.C18.plan_over_prefix w.font p
+  obtain ⟨u, hu⟩ := Option.isSome_iff_exists.mp hex
+  have htake : (plan w.font (.saveAsOver p)).take ((plan w.font (.saveAsOver p)).length - 2) = pre ++ [.moveAside p] := by
+    rw [hplan]
+    have : (pre ++ [Step.moveAside p, Step.moveTemp p, Step.dropAside]).length - 2 = pre.length + 1 := by simp
+    rw [this, List.take_append]
+    simp [List.take_of_length_le]
+  obtain ⟨hd, _⟩ := DefconModel.Props.C18.runSteps_temp_disk p w pre h1 h2
+  have hrun : runSteps (.saveAsOver p) w (pre ++ [.moveAside p]) =
+      exec (.saveAsOver p) (runSteps (.saveAsOver p) w pre) (.moveAside p) := by
+    unfold runSteps; simp [List.foldl_append]
+  unfold failTorn cleanup
+  simp only [htake, hrun, exec, recover, hd, hu]
+  by_cases hq : q = p
+  · subst hq; rw [lookup_store_self, hu]
+  · rw [lookup_store_ne _ _ _ _ hq, lookup_store_ne _ _ _ _ hq, lookup_remove_ne _ _ _ hq]
+
+/-- on the F20 witness: whatever part arrives at path 2, a torn move leaves the UFO that was there -/
+example : SaveSteps.lookup (SaveSteps.failTorn 2 DefconModel.Props.C18.w20 { comps := [7], listing := [3] }).disk 2 =
+    some { comps := [9] } := by decide
+
+/-! ## 6. The final replace itself, file-system call by file-system call (M-Replace)
+
+Section 5 treats "put aside / move in / put back" as atomic steps.  The move of the new UFO onto the
+destination is the one call of the save that can be TORN: the new UFO comes from the system's temporary
+directory (a copy across devices as a rule), so the call can fail after a part — a directory with some
+files, a truncated zip — has arrived.  What then lies at the destination has a kind (directory or regular
+file) that need not be the kind of the UFO that was put aside (a zip written over a package, a package
+over a zip), and `shutil.rmtree(…, ignore_errors=True)`, `os.remove` and `shutil.move` each behave
+differently on the two. -/
+
+open DefconModel.Replace in
+/-- **A failed final replace puts the destination back**, for every way of removing the partial arrival
+that is adequate (`CleanOK`: empties the destination whether a directory, a file or nothing is there,
+without raising): whatever the old UFO and the new one are — package or zip, in any combination — and
+whichever fault hits (the put-aside fails; the move-in fails before anything arrived, after a part
+arrived, after everything arrived), the save raises, the destination holds exactly the UFO it held, and
+neither temporary directory is left. -/
+theorem failed_replace_restores_destination (clean : Replace.FS → Option Replace.FS) (hc : Replace.CleanOK clean)
+    (old new : Replace.Node) (f : Replace.Fault) (hf : f ≠ .none) :
+    Replace.replaceWith clean (Replace.start old new) f = ⟨Replace.restored old, true⟩ := by
+  by_cases ha : f = .asideRaises
+  · subst ha; rfl
+  · obtain ⟨x, hx⟩ := moveIn_fault old new f hf ha
+    obtain ⟨fs3, h3, hd, ht, hs⟩ := hc { dest := x, temp := some new, aside := some old }
+    obtain ⟨d3, t3, a3⟩ := fs3
+    simp only at hd ht hs
+    subst hd; subst ht; subst hs
+    have hl : lexists (start old new) .dest = true := rfl
+    simp only [replaceWith, hl, if_true, if_neg ha, move_aside, hx, h3, move_back]
+    rfl
+
+/-- `Font.save` removes the partial arrival adequately (`rmtree` when it is a directory, `os.remove` for
+anything else that exists), so the statement holds of the code as it is: **a torn final move never
+damages the UFO at the destination.** -/
+theorem torn_move_restores_destination (old new : Replace.Node) (f : Replace.Fault) (hf : f ≠ .none) :
+    Replace.replace (Replace.start old new) f = ⟨Replace.restored old, true⟩ :=
+  failed_replace_restores_destination Replace.removeArrived Replace.removeArrived_ok old new f hf
+
+open DefconModel.Replace in
+/-- … and without a fault the destination — whatever was there, of whatever kind, or nothing — holds the
+new UFO, the save returns, and nothing temporary is left ("unless the save completes"). -/
+theorem replace_completes (clean : Replace.FS → Option Replace.FS) (d : Option Replace.Node) (new : Replace.Node) :
+    Replace.replaceWith clean { dest := d, temp := some new, aside := none } .none =
+      ⟨{ dest := some new, temp := none, aside := none }, false⟩ := by
+  cases d with
+  | none => simp [replaceWith, lexists, FS.get, moveIn_ok, finish]
+  | some old =>
+    have hl : lexists { dest := some old, temp := some new, aside := none } .dest = true := rfl
+    have hm := move_aside old new
+    simp only [start] at hm
+    simp [replaceWith, hl, hm, moveIn_ok, finish]
+
+/-- a package at the destination, a zip being written over it -/
+def oldPackage : Replace.Node := { kind := .dir, blob := 1 }
+def newZip : Replace.Node := { kind := .file, blob := 2 }
+def newPackage : Replace.Node := { kind := .dir, blob := 2 }
+
+example : Replace.replace (Replace.start oldPackage newZip) (.moveInTorn 3) = ⟨Replace.restored oldPackage, true⟩ ∧
+    Replace.replace (Replace.start oldPackage newZip) .none = ⟨{ dest := some newZip }, false⟩ := by decide
+
+/-- The kind test is needed.  `shutil.rmtree(…, ignore_errors=True)` alone is NOT adequate: it leaves a
+regular file where it is (silently) … -/
+theorem rmtree_alone_inadequate : ¬ Replace.CleanOK (fun fs => some (Replace.rmtreeIgnore fs .dest)) := by
+  intro h
+  obtain ⟨fs', h1, h2, _, _⟩ := h { dest := some newZip }
+  simp only [Option.some.injEq] at h1
+  subst h1
+  revert h2
+  decide
+
+/-- … and then a truncated zip is in the way of the package that is put back: the move raises, the aside
+directory is removed with the only copy of the old UFO in it, and the destination holds the truncated
+file. -/
+example : Replace.replaceWith (fun fs => some (Replace.rmtreeIgnore fs .dest)) (Replace.start oldPackage newZip) (.moveInTorn 3) =
+    ⟨{ dest := some { kind := .file, blob := 3 } }, true⟩ := by decide
+
+/-- `os.remove` alone is not adequate either (it raises for a directory: the handler is left before the
+put-back), nor is doing nothing (the old package is moved INTO the partial one). -/
+theorem remove_alone_inadequate : ¬ Replace.CleanOK (fun fs => Replace.osRemove fs .dest) := by
+  intro h
+  obtain ⟨fs', h1, _, _, _⟩ := h { dest := some newPackage }
+  have hn : Replace.osRemove { dest := some newPackage } .dest = none := by decide
+  simp only [hn] at h1
+  exact absurd h1 (by simp)
+
+example : Replace.replaceWith (fun fs => Replace.osRemove fs .dest) (Replace.start oldPackage newPackage) (.moveInTorn 3) =
+    ⟨{ dest := some { kind := .dir, blob := 3 } }, true⟩ := by decide
+example : Replace.replaceWith some (Replace.start oldPackage newPackage) (.moveInTorn 3) =
+    ⟨{ dest := some { kind := .dir, blob := 3, inside := [1] } }, true⟩ := by decide
 
 end DefconModel.Props.C16
